@@ -10,7 +10,7 @@ run1() {
 }
 n=0
 for d in seeded/${1:-}*; do
-  [ -d "$d" ] || continue
+  [ -f "$d/meta.json" ] || continue
   run1 $d &
   n=$((n+1)); [ $((n % 4)) -eq 0 ] && wait
 done
